@@ -83,6 +83,26 @@ def boundary_family():
     return out
 
 
+def family_undo():
+    """scenarios whose point is the state after an undo; C08 quick keeps all of them"""
+    out = []
+    # restored predecessors: a two-edge path t1 -> t2 -> t3 is overridden one level up by a direct edge which is then retracted; the restored
+    # predecessor must be the OLD one (t2), not the source: after the direct edge is retracted a further edge t3 -> t4 is
+    # asserted, so that the explanation of the now decided constraints on (t1,t4) has to walk t4 -> t3 -> t2 -> t1 through the restored entry
+    for direct in (0, 1):
+        cons = [(1, 2, 1), (2, 3, 1), (1, 3, direct), (3, 4, 1), (4, 1, -4), (1, 4, 3)]
+        out.append((4, cons, [(ROOT, 0, 1), (A, 1, 1), (A, 2, 1), (POP, 0, 0), (A, 3, 1)]))
+        out.append((4, cons, [(A, 0, 1), (A, 1, 1), (A, 2, 1), (POP, 0, 0), (A, 3, 1), (POP, 0, 0)]))
+        out.append((4, cons, [(A, 1, 1), (A, 0, 1), (A, 2, 1), (POP, 0, 0), (A, 3, 1)]))
+    # one decision that implies (root clauses) two contradictory constraints and a third one: the conflict is found while implied literals still wait
+    # in the propagation queue, the learnt clause is unit and the core backjumps to root; the waiting literals belong to the undone level
+    cons = [(2, 3, 3), (1, 2, 1), (2, 1, -3), (1, 3, 2)]
+    out.append((3, cons, [cl(0, 0, 1, 1), cl(0, 0, 2, 1), cl(0, 0, 3, 1), (A, 0, 1), (A, 2, 1), (POP, 0, 0)]))
+    out.append((3, cons, [cl(0, 0, 2, 1), cl(0, 0, 1, 1), cl(0, 0, 3, 1), (A, 0, 1), (A, 1, 1), (A, 3, 1), (POP, 0, 0)]))
+    out.append((3, cons, [cl(0, 0, 1, 1), cl(0, 0, 2, 1), (A, 3, 1), (A, 0, 1), (A, 2, 1), (POP, 0, 0)]))
+    return out
+
+
 def sample(rng, n, T, maxc, maxh):
     out = []
     for _ in range(n):
@@ -111,7 +131,7 @@ def fmt(T, cons, hist):
 def jobs(tier):
     seed = int(os.environ.get('VERIF_SEED', '0') or 0)
     rng = random.Random(4321 + seed)
-    scs = list(CURATED) + boundary_family()
+    scs = list(CURATED) + boundary_family() + family_undo()
     if tier == 'quick':
         scs += sample(rng, 20, 3, 5, 5) + sample(rng, 6, 2, 4, 6)
         k = 5
